@@ -5,6 +5,7 @@ import (
 	"go/token"
 	"go/types"
 	"os"
+	"runtime"
 	"strings"
 	"sync"
 
@@ -77,6 +78,8 @@ type Machine struct {
 }
 
 const maxSteps = 6_000_000
+
+var debugForks = os.Getenv("VERIF_DEBUG_FORKS") != ""
 
 func (m *Machine) resetPath(prefix []int) {
 	m.prefix, m.pos, m.trail, m.pc, m.vars, m.steps = prefix, 0, nil, nil, nil, 0
@@ -221,6 +224,20 @@ func (m *Machine) choose(conds []*Term) int {
 	}
 	if len(feas) > 1 {
 		m.forks++
+		if debugForks {
+			var pcs [8]uintptr
+			n := runtime.Callers(2, pcs[:])
+			fr := runtime.CallersFrames(pcs[:n])
+			var names []string
+			for {
+				f, more := fr.Next()
+				names = append(names, f.Function[strings.LastIndexByte(f.Function, '.')+1:])
+				if !more || len(names) >= 4 {
+					break
+				}
+			}
+			fmt.Fprintln(os.Stderr, "FORK", len(feas), names)
+		}
 	}
 	for _, alt := range feas[1:] {
 		p := make([]int, len(m.trail)+1)
